@@ -75,7 +75,11 @@ LEVEL_TEXT = (
     "call equal); transforms with an explicit scale b on intervals beyond / around / up to b and one transform object (b explicit or "
     "inferred) serving four different problems in sequence; the same argument arrays refilled in place between two calls; two "
     "problems that differ in one hidden dependency (trim_inf, exponent, order, no_derivatives, scale, transform or none) solved and "
-    "evaluated in either order and interleaved."
+    "evaluated in either order and interleaved. Follow-up: coefficient functions a_k (every k below the leading one) and right-hand "
+    "sides that vanish EXACTLY at one / several / all-but-one nodes of the mesh the library evaluates them on (with a transform the "
+    "zeros are put at inverse(transform(node))), odd coefficients on symmetric meshes containing 0, sign changes between nodes, "
+    "Legendre and Hermite equations with their polynomial solutions and f = 0, for IVP and BVP, with ten transforms and without; the "
+    "failing-input search after a broken tie is capped at 200 s (this class first)."
 )
 TECHNIQUE = ("Lean 4 proof over regenerated source text (transformation algebra, derivative matrices, explicit form, "
              "the bodies of the public functions and their callbacks, end-to-end under the contracts of the SciPy primitives) + differential correspondence of the private helpers and of "
@@ -285,6 +289,22 @@ def coeff_fn(c):
         return lambda x: c['s'] * (c['c0'] + c['c1'] * np.sin(c['w'] * x))
     if kind == 'exp':
         return lambda x: c['s'] * c['c0'] * np.exp(c['c1'] * x)
+    if kind == 'poly':          # p[0] + p[1] x + ... (Horner): exactly 0 at x = 0 when p[0] = 0
+        def poly(x, p=list(c['p'])):
+            x = np.asarray(x, dtype=float)
+            v = np.zeros_like(x) + p[-1]
+            for q in p[-2::-1]:
+                v = v * x + q
+            return v
+        return poly
+    if kind == 'zeros':         # s * prod_j (x - z_j) * (1 + t x): exactly 0 at every x = z_j
+        def zeros(x, s=c['s'], z=list(c['z']), t=c.get('t', 0.0)):
+            x = np.asarray(x, dtype=float)
+            v = s * (1.0 + t * x)
+            for zj in z:
+                v = v * (x - zj)
+            return v
+        return zeros
     raise ValueError(kind)
 
 def coeff_val(c, x):
@@ -292,7 +312,12 @@ def coeff_val(c, x):
     return f(x) if callable(f) else f + 0 * np.asarray(x, dtype=float)
 
 def rhs(prob):
-    """f := sum_k a_k y^(k)  (manufactured right-hand side)."""
+    """f := sum_k a_k y^(k)  (manufactured right-hand side); prob['f'] (optional): the same function in a closed form that
+    vanishes EXACTLY where it should ('zero': identically; a coefficient-like spec: s * prod (x - z_j))."""
+    if prob.get('f') == 'zero':
+        return lambda x: 0.0 * np.asarray(x, dtype=float)
+    if isinstance(prob.get('f'), dict):
+        return lambda x: coeff_val(prob['f'], x)
     return lambda x: sum(coeff_val(c, x) * y_deriv(prob['y'], k)(x) for k, c in enumerate(prob['coeffs']))
 
 def make_tf(prob):
@@ -1245,9 +1270,29 @@ def oracle(ctx: Ctx, budget: str, only=None):
     kinds_on = (only or {}).get("kinds", {"ivp", "bvp"})
     nfail0 = len(ctx.failures)
 
+    searching = large or only is not None
+
     def enough():
-        # a restricted run (oracle_at) stops as soon as it has concrete failing inputs
+        # a restricted run (oracle_at) stops as soon as it has concrete failing inputs; the whole failing-input search (oracle_at +
+        # large budget) after a broken tie shares one wall-clock cap: the cheap, diverse parts come first
+        if searching and _search_left(ctx) <= 0:
+            if not ctx.extra.get("_search_cap_said"):
+                ctx.extra["_search_cap_said"] = True
+                ctx.info(f"failing-input search stopped at its cap of {SEARCH_CAP_S:.0f} s")
+            return True
         return only is not None and sum(f.kind == "oracle" for f in ctx.failures[nfail0:]) >= 3
+
+    def part_vanishing():
+        kinds_v = sorted(kinds_on)
+        for case in _vanishing_cases(rng, cat, large or ctx.thorough, kinds_v, orders_on):
+            if enough():
+                break
+            p = case["prob"]
+            kind = case["kind"]
+            _audit_call(ctx, "check_vanishing", (case,), lambda t, kind=kind, fam=case["family"]: f"ode.solve_ode_{kind}:vanishing-coefficient:{fam}",
+                        f"solve_ode_{kind}, order {len(p['coeffs']) - 1}, {p['tf'] or 'no transform'}: {case['what']}", case,
+                        _guarded(f"case = {case!r}\n", "check_vanishing(case)"), ["vanishing", case],
+                        f"oracle:{kind}:vanishing-coefficient:{case['family'].split(':')[0]}", nontrivial=True)
 
     # ---- audit: state between calls / object identity (first: its replay snippets carry the whole call history) ----------
     # (run as the first part below)
@@ -1321,7 +1366,10 @@ def oracle(ctx: Ctx, budget: str, only=None):
             x0 = prob["span"][0]
             at0 = np.atleast_2d(sol(np.array([x0])))[:, 0]
             want0 = [float(y_deriv(prob["y"], k)(x0)) for k in range(order)]
-            if any(abs(a - b) > 1e-9 * (1 + abs(b)) for a, b in zip(at0, want0)):
+            # (1e-9; for the extreme-parameter problems 2e-8: on an interval of 1e-6 the mapped data pass through a matrix with entries
+            #  of 1e6 .. 1e12 and LSODA's dense output at t0 - seen on the unchanged tree: 1.1e-9 in the second-derivative row)
+            tol0 = 2e-8 if "extreme" in opt else 1e-9
+            if any(abs(a - b) > tol0 * (1 + abs(b)) for a, b in zip(at0, want0)):
                 ctx.fail("oracle", key, f"solve_ode_ivp: initial values not reproduced at x0={x0}: {list(at0)} vs {want0}",
                          witness={"problem": prob, "at_x0": at0, "prescribed": want0}, snippet=snippet_ivp(prob, tol))
             # through transform == direct
@@ -1461,7 +1509,8 @@ def oracle(ctx: Ctx, budget: str, only=None):
         return lambda: None if enough() else fn()
 
     _run_parts(ctx, "oracle", [
-        ("sequences", lambda: _audit_sequences(ctx, cat, only)), ("initial-value-problems", part_ivp), ("boundary-value-problems", part_bvp),
+        ("vanishing-coefficients", part_vanishing), ("sequences", guarded(lambda: _audit_sequences(ctx, cat, only))),
+        ("initial-value-problems", guarded(part_ivp)), ("boundary-value-problems", guarded(part_bvp)),
         ("round3", guarded(lambda: _oracle_round3(ctx, cat, only, large))), ("round4", guarded(lambda: _oracle_round4(ctx, cat, only, large))),
         ("round5", guarded(lambda: _oracle_round5(ctx, cat, only, large))),
         ("containers", guarded(lambda: _audit_containers(ctx, only)))])
@@ -2476,6 +2525,8 @@ def _guarded(setup, call):
 def _audit_call(ctx, fn, args, key_of, describe, witness, snippet, case, tag, nontrivial=True):
     """Run one audit check of AUDIT_HELPERS; a Violation / any exception becomes an oracle failure with a stable key.
     `key_of(tag)` maps the class of the violation to the failure key."""
+    if "_search_t0" in ctx.extra and _search_left(ctx) <= 0:
+        return True          # the failing-input search after a broken tie has used up its wall-clock cap
     ctx.count(case, nontrivial=nontrivial, tag=tag)
     try:
         with time_limit(SOLVE_TIME_LIMIT):
@@ -3405,6 +3456,145 @@ def _oracle_round4(ctx, cat, only, large):
                                ("shared-argument-objects", part_shared_arguments), ("raising-calls", part_raising_calls)])
 
 
+
+# ---- coefficient functions and right-hand sides that vanish EXACTLY at mesh nodes / evaluation points (seeded change C15-g) ------
+R6_HELPERS = r'''
+def check_vanishing(case):
+    # a_k(x) (any k below the leading one) or f(x) is exactly 0 at one / several / all-but-one nodes of the mesh the library
+    # evaluates them on (with a transform: at inverse(transform(node)), which is where the zeros were put), or changes sign
+    # between nodes; Legendre / Hermite equations with their polynomial solutions.  Through the transform against the exact
+    # solution and against the direct solve.
+    prob, kind = case['prob'], case['kind']
+    pts = np.array(case['points'], dtype=float)
+    try:
+        out = np.atleast_2d(_solver(prob, kind)(pts))
+    except Exception as e:
+        raise Violation('vanishing', f'{case["what"]}: raised {type(e).__name__}: {e}')
+    ex, sc = _rows_exact(prob, pts)
+    e = _rel(out, ex, sc) if out.shape == ex.shape else float('inf')
+    if not e <= case['tol']:
+        raise Violation('vanishing', f'{case["what"]}: through {prob["tf"] or "no transform"} the rows are off the exact solution by {e:.3g} > {case["tol"]} '
+                        f'(row-wise {[float(np.max(np.abs(out[k] - ex[k])) / sc[k]) for k in range(len(sc))] if out.shape == ex.shape else out.shape})')
+    if prob['tf']:
+        outd = np.atleast_2d(_solver(prob, kind, False, None)(pts))
+        d = _rel(out, outd, sc) if out.shape == outd.shape else float('inf')
+        if not d <= 2 * case['tol']:
+            raise Violation('vanishing', f'{case["what"]}: through {prob["tf"]} differs from the direct solve by {d:.3g}')
+    return 'ok'
+'''
+exec(R6_HELPERS, _ns)
+_AUDIT_HEADER = HELPERS + AUDIT_HELPERS + R3_HELPERS + R4_HELPERS + R5_HELPERS + R6_HELPERS + "\nimport signal; signal.alarm(300)\n"
+
+# (catalogue entry that carries the flags, constructor text, span of the original variable; the first: x = 0 <-> r = 1 exactly)
+VAN_TFS = [
+    ("BeckeRTransform", "BeckeRTransform(0.0, 1.0)", (-0.6, 0.6)), ("none", "", (-0.6, 0.6)),
+    ("BeckeRTransform", "BeckeRTransform(0.1, 1.5)", (-0.6, 0.6)), ("KnowlesRTransform:k=2", "KnowlesRTransform(0.1, 1.5, 2)", (-0.6, 0.6)),
+    ("HandyModRTransform:m=3", "HandyModRTransform(0.1, 10.0, 3)", (-0.6, 0.6)), ("LinearFiniteRTransform", "LinearFiniteRTransform(-1.0, 1.0)", (-0.6, 0.6)),
+    ("HandyRTransform:m=2", "HandyRTransform(0.0, 1.0, 2)", (-0.6, 0.6)), ("Inverse(BeckeRTransform)", "InverseRTransform(BeckeRTransform(0.1, 1.5))", (0.4, 1.8)),
+    ("IdentityRTransform", "IdentityRTransform()", (0.4, 1.8)), ("Inverse(KnowlesRTransform):k=3", "InverseRTransform(KnowlesRTransform(0.1, 1.5, 3))", (0.4, 1.8)),
+]
+VAN_FAMILIES = ["node-zero:one", "odd-on-symmetric-mesh", "node-zero:several", "legendre", "node-zero:all-but-one", "hermite", "rhs-zeros",
+                "sign-change-between-nodes", "node-zero:span-start"]
+
+
+def _vanishing_case(rng, cat, kind, order, ti, family, kk):
+    name, text, span = VAN_TFS[ti]
+    symmetric = span[0] == -span[1]
+    if family in ("legendre", "hermite", "odd-on-symmetric-mesh") and not symmetric:
+        family = "node-zero:one"
+    if family in ("legendre", "hermite"):
+        order = 2
+    nmesh = 5 if family == "node-zero:all-but-one" else 9
+    prob = gen_problem(rng, order, name, cat)
+    prob.update(tf=text, span=list(span), method="DOP853", rtol=1e-10, atol=1e-12, nmesh=nmesh, tol=BVP_TOL, max_nodes=20000,
+                reverse_mesh=False)
+    tf = make_tf(prob)
+    mesh = np.linspace(span[0], span[1], nmesh)
+
+    def seen(x):        # where the library evaluates the coefficients for the node x (with a transform: after the round trip)
+        if tf is None:
+            return float(x)
+        return float(np.atleast_1d(tf.inverse(tf.transform(np.array([float(x)]))))[0])
+    k = kk % order                      # which coefficient vanishes (0 .. K-1: never the leading one)
+    what = family
+    if family == "legendre":
+        n = 2 + kk % 2
+        prob["coeffs"] = [{"kind": "const", "c": float(n * (n + 1))}, {"kind": "poly", "p": [0.0, -2.0]}, {"kind": "poly", "p": [1.0, 0.0, -1.0]}]
+        prob["y"] = {"ce": 0.0, "al": 0.0, "cs": 0.0, "be": 1.0, "ph": 0.0, "p": [-0.5, 0.0, 1.5, 0.0] if n == 2 else [0.0, -1.5, 0.0, 2.5]}
+        prob["f"] = "zero"
+        what = f"Legendre equation, n = {n} (a_1 = -2x vanishes at the node 0, f = 0 everywhere)"
+    elif family == "hermite":
+        n = 2 + kk % 2
+        prob["coeffs"] = [{"kind": "const", "c": 2.0 * n}, {"kind": "poly", "p": [0.0, -2.0]}, {"kind": "const", "c": 1.0}]
+        prob["y"] = {"ce": 0.0, "al": 0.0, "cs": 0.0, "be": 1.0, "ph": 0.0, "p": [-0.25, 0.0, 0.5, 0.0] if n == 2 else [0.0, -1.5, 0.0, 1.0]}
+        prob["f"] = "zero"
+        what = f"Hermite equation, n = {n}"
+    elif family == "odd-on-symmetric-mesh":
+        prob["coeffs"][k] = {"kind": "lin", "c0": 0.0, "c1": rng.choice([-1, 1]) * rng.uniform(0.5, 2)}
+        what = f"a_{k}(x) = c x (odd) on a symmetric mesh containing 0"
+    elif family == "rhs-zeros":
+        a = [rng.choice([-1, 1]) * rng.uniform(0.5, 2) for _ in range(order + 1)]
+        z = [seen(mesh[2]), seen(mesh[nmesh - 3])]
+        sgn = rng.choice([-1.0, 1.0]) * rng.uniform(0.5, 2)
+        prob["coeffs"] = [{"kind": "const", "c": c} for c in a]
+        prob["f"] = {"kind": "zeros", "s": sgn, "z": z, "t": 0.0}
+        p2 = sgn / a[0]
+        p1 = (-sgn * (z[0] + z[1]) - 2 * a[1] * p2) / a[0]
+        p0 = (sgn * z[0] * z[1] - a[1] * p1 - (2 * a[2] * p2 if order >= 2 else 0.0)) / a[0]
+        prob["y"] = {"ce": 0.0, "al": 0.0, "cs": 0.0, "be": 1.0, "ph": 0.0, "p": [p0, p1, p2, 0.0]}
+        what = "constant coefficients, f(x) = s (x - x_2)(x - x_6) vanishes at two mesh nodes"
+    else:
+        if family == "node-zero:one":
+            zs = [mesh[nmesh // 2 + (kk % 3 - 1)]]
+        elif family == "node-zero:several":
+            zs = [mesh[1], mesh[nmesh // 2], mesh[nmesh - 2]]
+        elif family == "node-zero:all-but-one":
+            zs = [m for j, m in enumerate(mesh) if j != kk % nmesh]
+        elif family == "node-zero:span-start":
+            zs = [mesh[0]]
+        else:
+            zs = [0.5 * (mesh[2] + mesh[3]), 0.5 * (mesh[5] + mesh[6])]
+        z = [seen(v) if family != "sign-change-between-nodes" else float(v) for v in zs]
+        grid = np.linspace(span[0], span[1], 101)
+        size = float(np.max(np.abs(np.prod([grid - zj for zj in z], axis=0))))
+        prob["coeffs"][k] = {"kind": "zeros", "s": rng.choice([-1, 1]) * rng.uniform(0.6, 1.6) / size, "z": z, "t": rng.uniform(-0.3, 0.3)}
+        what = f"a_{k}(x) vanishes exactly at {len(z)} of the {nmesh} mesh nodes ({family})" if family != "sign-change-between-nodes" \
+            else f"a_{k}(x) changes sign between mesh nodes"
+    if kind == "bvp":
+        for attempt in range(8):
+            sel = _choose_bc(rng, order, BC_KINDS[(kk + attempt) % len(BC_KINDS)])
+            try:
+                cond = _bvp_functional_cond(prob, sel)
+            except Exception:
+                cond = float("inf")
+            if cond <= 60.0:
+                break
+        else:
+            sel = [(0, j) for j in range(order)]
+        prob.update(bc=[list(t) for t in sel], bc_kind="vanishing")
+    points = sorted({float(v) for v in mesh} | {0.5 * (span[0] + span[1]) + 0.37 * (span[1] - span[0]) * u for u in (-1.0, 0.3, 0.77)})
+    return {"prob": prob, "kind": kind, "points": points, "what": what, "family": family,
+            "tol": 3 * IVP_FACTOR * 1e-10 if kind == "ivp" else 5 * BVP_ACCEPT * cat[name][2].get("bvp_tol_factor", 1.0)}
+
+
+def _vanishing_cases(rng, cat, more, kinds, orders):
+    cases = []
+    k0 = rng.randrange(1000)
+    hot = [o for o in orders if o >= 2] or orders
+    if "bvp" in kinds:
+        # the cell that matters most: solve_ode_bvp (many points per call of the callbacks) through a transform, every k
+        for i, fam in enumerate(VAN_FAMILIES if more else VAN_FAMILIES[:7]):
+            for rep in range(3 if more else 1):
+                ti = [0, 2, 3, 4, 5, 6, 7, 8, 9][(k0 + i + 4 * rep) % 9] if (i + rep) % 4 else 0
+                cases.append(_vanishing_case(rng, cat, "bvp", hot[(k0 + i + rep) % len(hot)], ti, fam, k0 + i + rep))
+        cases.append(_vanishing_case(rng, cat, "bvp", orders[k0 % len(orders)], 1, VAN_FAMILIES[k0 % 3], k0))          # without a transform
+    if "ivp" in kinds:
+        for i in range(9 if more else 3):
+            fam = ["node-zero:span-start", "odd-on-symmetric-mesh", "legendre", "node-zero:several", "rhs-zeros", "hermite"][(k0 + i) % 6]
+            cases.append(_vanishing_case(rng, cat, "ivp", orders[(k0 + i) % len(orders)], (k0 + 3 * i) % len(VAN_TFS), fam, k0 + i))
+    return cases
+
+
 # ---- round 5: classes 21, 23, 24, 25, 26 ------------------------------------------------------------------------------------------
 BIG_SIZES = [1025, 4097, 20001, 31234, 65537]          # just above 2^10, 2^12, 2*10^4, -, 2^16: no multiple of a block size
 PRECISION_VARIANTS = [(t, w) for t in ("longdouble", "float32", "float16", "int")
@@ -3581,6 +3771,15 @@ def _oracle_round5(ctx, cat, only, large):
                                ("two-instances", part_instances)])
 
 
+SEARCH_CAP_S = 200.0        # wall-clock cap of the failing-input search (oracle_at + large budget) of one run, as for C16
+
+
+def _search_left(ctx):
+    import time
+    t0 = ctx.extra.setdefault("_search_t0", time.time())
+    return SEARCH_CAP_S - (time.time() - t0)
+
+
 def _run_parts(ctx, stage, parts):
     """Crash-proofing (round 4): every part runs; an exception raised by the library (innermost frame inside grid / scipy / numpy /
     sympy) is a failure of its own with the key `<part>:raises`, any other exception (harness, driver, translator) is kept and
@@ -3634,7 +3833,7 @@ def oracle_at(ctx: Ctx, failure):
     done = ctx.__dict__.setdefault("_c15_oracle_at", [])
     todo = [(o, k) for o in sorted(orders) for k in sorted(kinds) if (o, k) not in done]
     for o, k in todo:
-        if sum(f.kind == "oracle" for f in ctx.failures) >= 3:
+        if sum(f.kind == "oracle" for f in ctx.failures) >= 3 or _search_left(ctx) <= 0:
             return
         done.append((o, k))
         oracle(ctx, "large", only={"orders": {o}, "kinds": {k}})
